@@ -63,6 +63,14 @@ CLAIMED = {
              "invariant 'disabled => no key' holds over all histories including abandoned iterations. Tied to the real key-keeper loop in "
              "lock-step with a gated mock host: getters, H2 policy trace and host call log compared after every iteration.",
         design="§7 C09", technique="Lean 4 proof over a model of the poll iteration + lock-step differential correspondence"),
+    "C10": dict(
+        text="Lean theorem pair_consistent: for every interleaving of any number of signers with key rotation, clearing and re-latching, "
+             "when each signer reads the key in one actor message every emitted pair is (guid, secret) of one key that was latched at "
+             "some instant, or nothing; kernel-checked negative witness for the two-message program (the pre-fix code). Tied to the real "
+             "actor: the H3 message trace of each of the four signing routes must be the model's single-read program; rotations/clears "
+             "placed during the signer's messages through H3's inject point and free-running concurrent rounds; the mock host checks "
+             "every MAC against the key registered for the announced id.",
+        design="§7 C10, §8 F5", technique="Lean 4 proof over all interleavings of a message-level model + schedule injection on the real actor"),
     "C11": dict(
         text="Lean theorems: enforce denial = 403 + one record, audit denial = relayed exactly as an allowed request + one record, disabled "
              "mode never consults the document, summary counts = number of denials per key, order-independent. Tied to the real listener: "
